@@ -1,6 +1,7 @@
 package main
 
 import (
+	"regexp"
 	"strconv"
 	"context"
 	"encoding/json"
@@ -338,8 +339,15 @@ func (r *Report) finish(start time.Time) int {
 			failing = append(failing, o)
 			total++
 		}
+		// names are compared modulo ordinals (#k, .edgeK): an edit that adds a call, a return or a loop before the anchored
+		// one renumbers obligations without removing them, and must not look like a vanished proof
+		norm := func(n string) string { return reOrdinal.ReplaceAllString(n, "") }
+		normNames := map[string]bool{}
+		for n := range names {
+			normNames[norm(n)] = true
+		}
 		for _, n := range spec.ExpectObligations {
-			if !names[n] {
+			if !names[n] && !normNames[norm(n)] {
 				o := &Obligation{Name: n + ".missing", Kind: "vacuity", Desc: "expected obligation " + n + " was not generated", Result: SolverResult{Status: "unknown"}}
 				failing = append(failing, o)
 				total++
@@ -503,6 +511,8 @@ func (r *Report) finish(start time.Time) int {
 	}
 	return 0
 }
+
+var reOrdinal = regexp.MustCompile(`#(\d+|\*)|\.edge\d+`)
 
 type ReplayResult struct {
 	Confirmed bool   `json:"confirmed"`
